@@ -16,7 +16,7 @@ import (
 type hashCase struct {
 	Seed int64    `json:"zobrist_seed"`
 	FEN  string   `json:"fen"`
-	Ops  []string `json:"ops"` // coordinate move or "pop"
+	Ops  []string `json:"ops"` // coordinate move or "pop"; "fork" forks the board; "f:<op>" applies <op> to the fork
 }
 
 var hashSeeds = []int64{0, 1, -1, 42, 1 << 40, 987654321}
@@ -35,7 +35,26 @@ var checkC07Walk = def("C07/walk", func(c hashCase) error {
 	seen := map[oracle.Pos]board.ZobristHash{}
 	byHash := map[board.ZobristHash]oracle.Pos{}
 	var labels []string
+	var fb *board.Board // the fork, if any, and its game
+	var fg *oracle.Game
+	mainB, mainG := b, g
 	judge := func(i int, op string) error {
+		// both boards are judged after every operation: a fork and its origin are independent
+		for k, bb := range []*board.Board{mainB, fb} {
+			if bb == nil {
+				continue
+			}
+			gg := mainG
+			if k == 1 {
+				gg = fg
+			}
+			if sc := zt.Hash(bb.Position(), bb.Turn()); bb.Hash() != sc {
+				return fmt.Errorf("op %d (%s): %s reports Hash()=%x but the hash from scratch of its position %s is %x", i, op, []string{"the board forked from", "the fork"}[k], uint64(bb.Hash()), gg.Cur().Pos.KeyFEN(), uint64(sc))
+			}
+			if got := bridge.OPos(bb.Position(), bb.Turn()); got != gg.Cur().Pos {
+				return fmt.Errorf("op %d (%s): %s at %s, oracle at %s", i, op, []string{"the board forked from", "the fork"}[k], got.KeyFEN(), gg.Cur().Pos.KeyFEN())
+			}
+		}
 		scratch := zt.Hash(b.Position(), b.Turn())
 		if b.Hash() != scratch {
 			return fmt.Errorf("op %d (%s): Board.Hash()=%x but hash from scratch=%x at %s", i, op, uint64(b.Hash()), uint64(scratch), g.Cur().Pos.KeyFEN())
@@ -58,6 +77,22 @@ var checkC07Walk = def("C07/walk", func(c hashCase) error {
 		return err
 	}
 	for i, op := range c.Ops {
+		b, g = mainB, mainG
+		if op == "fork" {
+			fb, fg = mainB.Fork(), mainG.Clone()
+			labels = append(labels, "fork")
+			if err := judge(i, op); err != nil {
+				return err
+			}
+			continue
+		}
+		if len(op) > 2 && op[:2] == "f:" {
+			if fb == nil {
+				return fmt.Errorf("case: op %d on a fork that does not exist", i)
+			}
+			b, g, op = fb, fg, op[2:]
+			labels = append(labels, "op-on-fork")
+		}
 		if op == "pop" {
 			_, ok := b.PopMove()
 			if ok != g.Pop() {
@@ -106,7 +141,26 @@ func genHashCase(t *rapid.T) hashCase {
 	g := oracle.NewGame(st)
 	pol := gen.DrawPolicy(t)
 	n := rapid.IntRange(0, 70).Draw(t, "ops")
+	var fg *oracle.Game
+	forkBase := 0
+	withFork := rapid.IntRange(0, 2).Draw(t, "withfork") == 0
 	for i := 0; i < n; i++ {
+		if withFork && rapid.IntRange(0, 11).Draw(t, "fork") == 0 {
+			fg, forkBase = g.Clone(), len(g.Moves)
+			c.Ops = append(c.Ops, "fork")
+			continue
+		}
+		if fg != nil && rapid.IntRange(0, 2).Draw(t, "onfork") == 0 {
+			// an operation on the fork (never below its fork point)
+			if len(fg.Moves) > forkBase && rapid.IntRange(0, 4).Draw(t, "fpop") == 0 {
+				fg.Pop()
+				c.Ops = append(c.Ops, "f:pop")
+			} else if m, ok := gen.PickMove(t, fg, pol); ok {
+				fg.Push(m)
+				c.Ops = append(c.Ops, "f:"+m.String())
+			}
+			continue
+		}
 		if len(g.Moves) > 0 && rapid.IntRange(0, 5).Draw(t, "pop") == 0 {
 			g.Pop()
 			c.Ops = append(c.Ops, "pop")
@@ -366,3 +420,63 @@ func TestC07_separation(t *testing.T) {
 		return checkC07Sep(c)
 	})
 }
+
+// TestC07_birthday: "positions differing in any component get different hashes (barring a 2^-64
+// coincidence)" at scale. Every distinct position met while playing generated games is hashed
+// from scratch with one fixed table; two different positions with one hash among the first
+// 400 000 of a shard would be a 2^-28-probability event for honest 64-bit keys (4e-9), and is
+// expected several times over if the keys carry 32 bits or fewer. A collision is reported as a
+// C07/separation case (two FENs, one seed), which replays without this test.
+func TestC07_birthday(t *testing.T) {
+	const key = "C07/separation"
+	const capN = 400_000
+	zt := board.NewZobristTable(birthdaySeed)
+	met := map[board.ZobristHash]oracle.Pos{}
+	var clash *sepCase
+	add := func(st *oracle.State) {
+		if clash != nil || len(met) >= capN {
+			return
+		}
+		b := bridge.Board(zt, *st)
+		h := b.Hash()
+		if other, ok := met[h]; ok {
+			if other != st.Pos {
+				clash = &sepCase{Seed: birthdaySeed, Change: "two positions met in play", FEN: oracle.State{Pos: other, Full: 1}.FEN(), FEN2: oracle.State{Pos: st.Pos, Full: 1}.FEN()}
+			}
+			return
+		}
+		met[h] = st.Pos
+	}
+	runRapid(t, "C07/birthday", 72000, func(t *rapid.T) gen.GameCase {
+		gc, _ := gen.Game(t, 60)
+		return gc
+	}, func(gc gen.GameCase) error {
+		g, err := gc.Build()
+		if err != nil {
+			return err
+		}
+		for i := range g.States {
+			add(&g.States[i])
+			// and the neighbours one move away (many near-identical positions)
+			if i == len(g.States)-1 {
+				for _, m := range g.States[i].Pos.Legal() {
+					n := oracle.State{Pos: g.States[i].Pos.Make(m), Full: 1}
+					add(&n)
+				}
+			}
+		}
+		stats.Eval("C07/birthday", 1)
+		return nil
+	})
+	stats.Note("C07/birthday", "distinct_positions_hashed", int64(len(met)))
+	stats.Distinct("C07/birthday", stats.FP("positions", len(met)/1000), "distinct-positions-in-thousands")
+	if clash != nil {
+		err := checkC07Sep(*clash)
+		if err == nil {
+			err = fmt.Errorf("positions %s and %s share a hash", clash.FEN, clash.FEN2)
+		}
+		failCase(t, key, *clash, err)
+	}
+}
+
+const birthdaySeed = 20261003
